@@ -96,6 +96,11 @@ def make_jobs(ctx, fs):
             else:
                 jobs.append(("heap-%s-plain" % f.name, WC.gen_workload(rng, f, ch, kind="w", nops=4), f))
                 jobs.append(("heap-%s-meta" % f.name, meta_script(rng, f, ch), f))
+                # read / seek and (sample-granular encodings) read-write histories of the all-format campaign: codec and container structs,
+                # staging buffers and the header cache on the READ side come from the heap too
+                jobs.append(("heap-%s-rs" % f.name, WC.gen_workload(rng, f, ch, kind="rs", nops=6), f))
+                if f.codec in WC.RDWR_CODECS:
+                    jobs.append(("heap-%s-rw" % f.name, WC.gen_workload(rng, f, ch, kind="rw", nops=6), f))
     return jobs
 
 
